@@ -54,6 +54,9 @@ type Controller struct {
 	incLinks []link.MountedLink
 	// links are tracked links
 	links map[pubsub.PeerLinkTuple]*trackedLink
+	// linkRefs counts the EstablishLink values carrying each link.
+	// several directives can yield the same link: it is tracked once.
+	linkRefs map[pubsub.PeerLinkTuple]int
 }
 
 // NewController constructs a new transport controller.
@@ -76,6 +79,7 @@ func NewController(
 		pubSubCtr:  ccontainer.NewCContainer[*pubsub.PubSub](nil),
 		peerCtr:    ccontainer.NewCContainer[*peer.Peer](nil),
 		links:      make(map[pubsub.PeerLinkTuple]*trackedLink),
+		linkRefs:   make(map[pubsub.PeerLinkTuple]int),
 	}
 }
 
